@@ -56,15 +56,15 @@ END;
 [a file comment]
 begin data;
   dimensions ntax=3 nchar=6;
-  format datatype=dna interleave=yes gap=- missing=?;
+  format datatype=dna interleave=yes gap=- missing=? matchchar=.;
   matrix
     t1 ACG
-    t2 AC-
-    t3 A?G
+    t2 .C-
+    t3 .?.
 
     t1 TTA
-    t2 TTC
-    t3 TTG
+    t2 ..C
+    t3 T.G
   ;
 end;
 begin trees;
